@@ -111,6 +111,40 @@ def judge(case):
                        sample={"P": P, "recovered": R, "J": J})
 
 
+def judge_mixed_units(case):
+    """a multi-point curve whose permeances are supplied in a different unit per point and per component."""
+    mix = U.get_mixture(case["mixture"])
+    t = case["T"]
+    comps = (mix.first_component, mix.second_component)
+    xs = case["xs"]
+    base = [(3.1e-2 * (1 + 0.4 * i), 4.7e-4 * (1 + 0.7 * i)) for i in range(len(xs))]
+    units = case["units"]  # flat list: point-major, component-minor
+    perms = [tuple(to_unit(base[i][j], units[2 * i + j], comps[j]) for j in (0, 1)) for i in range(len(xs))]
+    fcomp = [U.Composition(p=x, type="weight") for x in xs]
+    kwargs = {}
+    if case["with_fluxes"]:
+        kwargs["partial_fluxes"] = [(0.02 * (i + 1), 0.001 * (i + 1)) for i in range(len(xs))]
+    st, c = core.call(U.DiffusionCurve, mixture=mix, membrane_name="M", feed_temperature=t, feed_compositions=fcomp, permeances=perms, **kwargs)
+    if st != "ok":
+        return core.result("raised", viol=[core.viol("C09/curve_from_permeances_raises", "%r" % (c,))])
+    v = []
+    for i in range(len(xs)):
+        pf = U.pyvaporation.get_partial_pressures(t, mix, fcomp[i])
+        for j in (0, 1):
+            q = c.permeances[i][j]
+            if q.units != KG or not core.close(float(q.value), base[i][j], 1e-11):
+                v.append(core.viol("C09/unit_normalisation", "point %d component %d supplied as %r %s is exposed as %r %s (units per point/component: %r)" % (
+                    i, j + 1, perms[i][j].value, units[2 * i + j], q.value, q.units, units)))
+                break
+            if not case["with_fluxes"] and not core.close(float(c.partial_fluxes[i][j]), base[i][j] * float(pf[j]), 1e-11):
+                v.append(core.viol("C09/fluxes_from_permeances", "point %d component %d: flux %r, permeance x feed partial pressure = %r" % (
+                    i, j + 1, c.partial_fluxes[i][j], base[i][j] * float(pf[j]))))
+                break
+        if v:
+            break
+    return core.result("normalised", digest=core.digest_of(case), viol=v)
+
+
 def space(tier, seed):
     q = tier == "quick"
     alph = {
@@ -138,11 +172,22 @@ def main(tier, seed):
                      "cases whose driving force is < 1% of the partial pressures are counted, not judged"],
         technique="bounded exhaustive enumeration of a round trip (solver forward, curve inverse) with a two-sided known-finding signature")
     core.run_space(rep, space(tier, seed), judge)
+    import itertools
+    q = tier == "quick"
+    ucomb = [list(u) for u in itertools.product([KG, "SI", "GPU"], repeat=4)]
+    mixed = core.Space("mixed_unit_curves", {"mixture": ["H2O_EtOH", "S2"] if q else ["H2O_EtOH", "MeOH_Toluene", "S2", "S4"], "T": core.lat([313.15, 353.15], seed)[:1 if q else 2],
+                                             "xs": [core.lat([0.2, 0.7], seed)], "units": ucomb, "with_fluxes": [False, True]})
+    core.run_space(rep, mixed, judge_mixed_units)
+    three = core.Space("mixed_unit_curves_3pt", {"mixture": ["H2O_EtOH"], "T": [333.15], "xs": [[0.1, 0.5, 0.9]],
+                                                 "units": [list(u) for u in itertools.product([KG, "SI", "GPU"], repeat=6)] if not q else
+                                                          [[a, a, b, b, c, c] for a in (KG, "SI", "GPU") for b in (KG, "SI", "GPU") for c in (KG, "SI", "GPU")],
+                                                 "with_fluxes": [False]})
+    core.run_space(rep, three, judge_mixed_units)
     return rep.finish()
 
 
 def replay(body):
-    r = judge(body["case"])
+    r = (judge_mixed_units if str(body.get("space", "")).startswith("mixed_unit") else judge)(body["case"])
     for v in r["viol"]:
         print("violation key=%s%s: %s" % (v["key"], " [known %s]" % v["known"] if v["known"] else "", v["msg"]))
     print("replayed: outcome=%s violations=%d" % (r["outcome"], len(r["viol"])))
